@@ -402,7 +402,7 @@ fn main() {
             }
         }
     }
-    let nr = if san { ctx.budget(2, 8) } else { ctx.budget(300, 6000) };
+    let nr = if san { ctx.cbudget(2, 8) } else { ctx.cbudget(300, 6000) };
     for _ in 0..nr {
         if let Some(mut rng) = ctx.random_case() {
             let len = rng.range_usize(0, if san { 10 } else { 64 });
